@@ -27,7 +27,7 @@ def shard_layout(tier):
 
 @st.composite
 def deformations(draw):
-    fam, cell = draw(gens.cells(families=gens.FAMILIES + ("triclinic", "triclinic", "monoclinic")))
+    fam, cell = draw(gens.cells(families=gens.FAMILIES + ("triclinic", "triclinic", "monoclinic", "pseudo")))
     R = draw(gens.rotations())
     mag = draw(st.sampled_from([0.0, 1e-6, 1e-3, 1e-3, 1e-2, 1e-1, 1e-1]))
     e = [draw(st.floats(-1, 1, allow_nan=False, width=64)) * mag for _ in range(3)]
